@@ -92,10 +92,9 @@ struct to_integer_result {
 template <integral Int, to_integer_options Options = to_integer_options{}>
 [[nodiscard]] constexpr auto to_integer(string_view str, Int base = Int(10)) noexcept -> to_integer_result<Int>
 {
-    auto const length        = str.size();
-    auto const wouldOverflow = detail::overflow_checker<Int, Options.check_overflow>{base};
-    auto const makeError     = [str](auto err) { return to_integer_result<Int>{.end = str.data(), .error = err}; };
-    auto const parseDigit    = [](int ch) -> Int {
+    auto const length     = str.size();
+    auto const makeError  = [str](auto err) { return to_integer_result<Int>{.end = str.data(), .error = err}; };
+    auto const parseDigit = [](int ch) -> Int {
         if (etl::isdigit(ch) != 0) {
             return static_cast<Int>(ch - int{'0'});
         }
@@ -128,6 +127,23 @@ template <integral Int, to_integer_options Options = to_integer_options{}>
             }
         }
     }
+
+    // base 0: detect the base like strtol. "0x" or "0X" followed by a hex digit
+    // selects base 16 (the prefix is skipped), any other leading '0' base 8,
+    // everything else base 10.
+    if (base == Int(0)) {
+        base = Int(10);
+        if (str[pos] == '0') {
+            base = Int(8);
+            if (length - pos > 2 and (str[pos + 1] == 'x' or str[pos + 1] == 'X')
+                and parseDigit(static_cast<int>(str[pos + 2])) < Int(16)) {
+                base = Int(16);
+                pos += 2;
+            }
+        }
+    }
+
+    auto const wouldOverflow = detail::overflow_checker<Int, Options.check_overflow>{base};
 
     // first digit
     auto value = [&] {
